@@ -432,7 +432,107 @@ fn control_programs(ctx: &mut Ctx) {
     }
 }
 
+/// literals that put the operands instruction `name` needs (frame table) onto its stacks
+fn prep_for(name: &str, r: &mut Rng) -> Vec<SItem> {
+    let i = |n: &str| SItem::Instr(n.to_string());
+    let mut v = vec![];
+    if let Some(fr) = crate::frame::frame(name) {
+        for (st, n) in fr.needs.iter() {
+            let n = (*n).min(4);
+            for j in 0..n {
+                match st {
+                    St::Bool => v.push(SItem::Bool(r.bool())),
+                    St::Int => v.push(SItem::Int(1 + r.below(3) as i32)),
+                    St::Float => v.push(SItem::Float(fb(0.5 + j as f32))),
+                    St::Name => {
+                        v.push(i("NAME.QUOTE"));
+                        v.push(SItem::Name(format!("n{}", j)));
+                    }
+                    St::Code => {
+                        v.push(i("CODE.QUOTE"));
+                        v.push(SItem::List(vec![SItem::Int(40 + j as i32), SItem::Bool(true)]));
+                    }
+                    St::BV => v.push(SItem::BV(vec![true, false])),
+                    St::IV => v.push(SItem::IV(vec![3, 1, 2])),
+                    St::FV => v.push(SItem::FV(vec![fb(1.0), fb(2.5)])),
+                    St::Graph => v.push(i("GRAPH.ADD")),
+                    _ => {}
+                }
+            }
+        }
+    }
+    v
+}
+
+/// Context sweep: EVERY registered instruction executed as the LAST item of a body inside the
+/// interpreter's own control structures (EXEC.LOOP plain and nested, INTVECTOR.LOOP, CODE.DO,
+/// CODE.DO*, EXEC.IF, EXEC.K), i.e. with the interpreter-made continuation items (loop re-entry
+/// lists, pending CODE.POP, branch remainders) on top of EXEC and loop indices on the INDEX
+/// stack when it runs. Every step is judged; `judge_of` picks the judge per instruction.
+pub fn context_sweep(ctx: &mut Ctx, prop: &str, judge_of: &dyn Fn(&str) -> Judge) {
+    let (mut is, names) = new_iset();
+    let cache = sorted_cache(&is);
+    let i = |n: &str| SItem::Instr(n.to_string());
+    let variants = ctx.n(2, 12);
+    let mut case: u64 = 7_000_000;
+    for name in names.iter() {
+        if name.contains("RAND") || name == "EXEC.Y" || name == "EXEC.FLUSH" {
+            continue;
+        }
+        for template in 0..7usize {
+            for var in 0..variants {
+                case += 1;
+                if !ctx.mine(case) {
+                    continue;
+                }
+                let mut r = Rng::derive(ctx.seed, &[6, 9, case]);
+                let mut body = prep_for(name, &mut r);
+                if var % 2 == 1 {
+                    body.insert(0, SItem::Int(7));
+                }
+                body.push(i(name));
+                let body = SItem::List(body);
+                let prog = match template {
+                    0 => vec![SItem::Int(2 + (var % 2) as i32), i("INDEX.DEFINE"), i("EXEC.LOOP"), body],
+                    1 => vec![SItem::Int(2), i("INDEX.DEFINE"), i("EXEC.LOOP"), SItem::List(vec![SItem::Int(2), i("INDEX.DEFINE"), i("EXEC.LOOP"), body])],
+                    2 => vec![SItem::IV(vec![4, 5, 6]), i("INTVECTOR.LOOP"), body],
+                    3 => vec![i("CODE.QUOTE"), body, i("CODE.DO*"), SItem::Int(9)],
+                    4 => vec![i("CODE.QUOTE"), body, i("CODE.DO"), SItem::Int(9)],
+                    5 => vec![SItem::Bool(var % 2 == 0), i("EXEC.IF"), body, SItem::List(vec![SItem::Int(8)]), SItem::Int(9)],
+                    _ => vec![i("EXEC.K"), body, SItem::List(vec![SItem::Int(8)]), SItem::Int(9)],
+                };
+                let mut s = if var % 3 == 2 { gen::snap(&mut r, &StateOpts { vals: Vals::Small, max_depth: 2, graphs: true, io: true, bindings: false, flags: false, random_cfg: false }, &names) } else { Snap::empty() };
+                s.e = vec![SItem::List(prog)];
+                s.q = false;
+                let mut st = build_state(&s);
+                ctx.rec.case_marker(case, &format!("context {} of {}", template, name));
+                let mut steps = 0u64;
+                while st.exec_stack.size() > 0 && steps < 300 {
+                    if crate::alloc::stats().live > (64 << 20) {
+                        break;
+                    }
+                    let j = match SItem::of(st.exec_stack.get(0).unwrap()) {
+                        SItem::Instr(n) => judge_of(&n),
+                        _ => Judge { frame: true, reference: true },
+                    };
+                    let ev = judged_exec_step(prop, &mut st, &mut is, &cache, &mut ctx.rec, j, &format!("{} as last body item, context template {}", name, template));
+                    steps += 1;
+                    if ev.post.is_none() {
+                        break;
+                    }
+                }
+                ctx.rec.count("steps", steps);
+                ctx.rec.count("context_sweep_programs", 1);
+                ctx.rec.cover(&format!("ctx|{}|{}", name, template));
+            }
+        }
+    }
+}
+
 pub fn run(ctx: &mut Ctx) {
+    let control = |n: &str| Judge { frame: true, reference: n.starts_with("EXEC.") || n.starts_with("INDEX.") || n == "INTVECTOR.LOOP" || matches!(n, "CODE.IF" | "CODE.DO" | "CODE.DO*" | "CODE.QUOTE" | "CODE.LOOP" | "CODE.POP") };
+    context_sweep(ctx, "C06", &control);
+    ctx.rec.checkpoint();
     single_steps(ctx);
     ctx.rec.checkpoint();
     loop_traces(ctx);
